@@ -419,6 +419,8 @@ Tree2d == [s1 |-> "prov", d2 |-> "s1"]
 Tree3d == [s1 |-> "prov", d2 |-> "s1", s3 |-> "d2"]
 Tree2 == [s1 |-> "prov", s2 |-> "s1"]
 Tree1 == [s1 |-> "prov"]
+\* for long random walks: eight scope names (a name is used once), nested ones with and without a derived context
+Tree8 == [s1 |-> "prov", s2 |-> "s1", s3 |-> "prov", d2 |-> "s3", s4 |-> "prov", s5 |-> "s4", s6 |-> "s5", s7 |-> "prov"]
 
 One(c) == {c}
 CfgBasic == {Basic}
@@ -435,4 +437,5 @@ CfgCloseErrs == CloseErrs
 \* construction (and only in that one), earlier and later consumers get instances of their own
 CfgOptFaults == Sane({WithFault(Optional, "r2", at, h) : at \in {1, 2, 3}, h \in Hows})
 CfgFaultCloseErrs == Sane(FaultCloseErrs)
+CfgWalk == Plain \cup Faulty \cup CloseErrs \cup CfgOptFaults \cup CfgFaultCloseErrs
 =============================================================================
